@@ -18,10 +18,6 @@ func conform(h *rt.H, c *codec, in []byte) {
 	case ref.OK:
 		h.Assert("accepted", err == nil)
 		h.Assert("value", ev.Equal(got, want))
-		if err == nil {
-			// C09: the parser's own event stream obeys the visitor contract
-			h.Assert("contract", ev.Contract(rec.Events) == "")
-		}
 	case ref.Unsupported:
 		h.Assert("refused", err != nil)
 		h.Assert("no-other-value", len(got) <= len(want) && ev.Equal(got, want[:n]))
@@ -38,6 +34,11 @@ func conform(h *rt.H, c *codec, in []byte) {
 		// unterminated string is not the structure of a document
 		h.Assert("truncated-rejected", err != nil)
 		h.Assert("no-other-value", ev.Equal(got[:n], want[:n]))
+	}
+	if err == nil {
+		// C09: whatever input a parser accepts (also where the specification leaves
+		// the reading open), its event stream obeys the visitor contract
+		h.Assert("contract", ev.Contract(rec.Events) == "")
 	}
 	h.ObserveBool("err", err != nil)
 	h.ObserveBytes("events", ev.Serialize(rec.Events))
